@@ -103,7 +103,10 @@ impl FromDict for Function {
                     _ => bail!("unknown dimensions")
                 };
                 let mut parts = Vec::with_capacity(n_dim);
-                let input_range = (raw.domain[0], raw.domain[1]);
+                let input_range = match raw.domain[..] {
+                    [min, max, ..] => (min, max),
+                    _ => bail!("function domain has less than two entries")
+                };
                 for dim in 0 .. n_dim {
                     let output_range = (
                         raw.range.as_ref().and_then(|r| r.get(2*dim).cloned()).unwrap_or(-INFINITY),
@@ -137,7 +140,7 @@ impl Object for Function {
                         let s = std::str::from_utf8(&data)?;
                         let func = PsFunc::parse(s)?;
                         let info = stream.info.info;
-                        Ok(Function::PostScript { func, domain: info.domain, range: info.range.unwrap() })
+                        Ok(Function::PostScript { func, domain: info.domain, range: try_opt!(info.range) })
                     },
                     0 => {
                         let info = stream.info.info;
@@ -149,7 +152,7 @@ impl Object for Function {
 
                         let size = try_opt!(info.size);
                         let range = try_opt!(info.range);
-                        let encode = info.encode.unwrap_or_else(|| size.iter().flat_map(|&n| [0.0, (n-1) as f32]).collect());
+                        let encode = info.encode.unwrap_or_else(|| size.iter().flat_map(|&n| [0.0, n.saturating_sub(1) as f32]).collect());
                         let decode = info.decode.unwrap_or_else(|| range.clone());
 
                         Ok(Function::Sampled(SampledFunction {
@@ -430,7 +433,9 @@ impl PsFunc {
         let start = s.find('{').ok_or(PdfError::PostScriptParse)?;
         let end = s.rfind('}').ok_or(PdfError::PostScriptParse)?;
 
-        let ops: Result<Vec<_>, _> = s[start + 1 .. end].split_ascii_whitespace().map(PsOp::parse).collect();
+        // the last '}' may come before the first '{'
+        let body = s.get(start + 1 .. end).ok_or(PdfError::PostScriptParse)?;
+        let ops: Result<Vec<_>, _> = body.split_ascii_whitespace().map(PsOp::parse).collect();
         Ok(PsFunc { ops: ops? })
     }
 }
